@@ -9,6 +9,7 @@ H == INSTANCE HeapLife WITH CopyOnDecode <- TRUE, EncodeFresh <- TRUE, ProtectKe
 HeapMsgs == << Msg(1, ChainAll), Msg(2, << Rep("SA"), Rep("KE"), Rep("NONCE") >>), Msg(3, << Rep("EAP") >>), Msg(4, << Rep("TSi"), Rep("TSr"), Rep("CP") >>),
                Msg(5, << Rep("IDi"), Rep("CERT"), Rep("CERTREQ"), Rep("AUTH") >>), Msg(1, << Rep("N"), Rep("D"), Rep("V"), Rep("IDr") >>),
                Msg(2, << [k |-> "SA", props |-> << Prop(0, 0, 255, TC) >>] >>),
+               Msg(4, << [k |-> "EAP", eap |-> Aka(2, 3, 1, AkaOfSubset(AkaSettable))], Rep("N") >>),
                Msg(3, << [k |-> "EAP", eap |-> [code |-> 2, id |-> 8, m |-> "expanded", vid |-> 10415, vtype |-> << 0, 0, 0, 3 >>, data |-> D(9, 73)]],
                          [k |-> "EAP", eap |-> [code |-> 1, id |-> 8, m |-> "identity", data |-> D(3, 74)]],
                          [k |-> "EAP", eap |-> [code |-> 2, id |-> 8, m |-> "nak", data |-> D(2, 75)]],
@@ -33,10 +34,10 @@ Steps(s, m, decoded) ==
                                            [panic |-> FALSE, err |-> FALSE, wire |-> EncMsg(Norm(m)), srcafter |-> Norm(m).payloads, refsout |-> FALSE])
                    [] o = "scribble_out" -> Step("heap_scribble_out", "C20", FALSE, [x |-> 0], NoCrash)
                    [] o = "protect" -> Step("heap_protect", "C20", FALSE, [suite |-> (Len(s) % 9) + 1, role |-> (Len(s) % 2 = 0)],
-                                            [panic |-> FALSE, err |-> FALSE, srchdr |-> HdrOf(m), orig |-> Norm(m).payloads, nsk |-> 1])
+                                            [panic |-> FALSE, err |-> FALSE, srchdr |-> HdrOf(m), orig |-> Norm(m).payloads, held |-> Norm(m).payloads, nsk |-> 1])
                    [] OTHER -> Step("heap_observe", "C20", FALSE, [x |-> 0],
-                                    IF decoded THEN [panic |-> FALSE, dmsg |-> Norm(m).payloads, orig |-> Norm(m).payloads, srchdr |-> HdrOf(m)]
-                                               ELSE [panic |-> FALSE, orig |-> Norm(m).payloads, srchdr |-> HdrOf(m)])
+                                    IF decoded THEN [panic |-> FALSE, dmsg |-> Norm(m).payloads, orig |-> Norm(m).payloads, held |-> Norm(m).payloads, srchdr |-> HdrOf(m)]
+                                               ELSE [panic |-> FALSE, orig |-> Norm(m).payloads, held |-> Norm(m).payloads, srchdr |-> HdrOf(m)])
        IN << st >> \o Steps(Tail(s), m, decoded \/ o \in {"decode", "unprotect"})
 
 HeapVector(s) ==
@@ -45,8 +46,8 @@ HeapVector(s) ==
                  \o Steps(s, m, FALSE)
                  \o << Step("heap_observe", "C20", FALSE, [x |-> 0],
                             IF \E i \in 1..Len(s) : s[i] \in {"decode", "unprotect"}
-                              THEN [panic |-> FALSE, dmsg |-> Norm(m).payloads, orig |-> Norm(m).payloads, srchdr |-> HdrOf(m)]
-                              ELSE [panic |-> FALSE, orig |-> Norm(m).payloads, srchdr |-> HdrOf(m)]) >>)
+                              THEN [panic |-> FALSE, dmsg |-> Norm(m).payloads, orig |-> Norm(m).payloads, held |-> Norm(m).payloads, srchdr |-> HdrOf(m)]
+                              ELSE [panic |-> FALSE, orig |-> Norm(m).payloads, held |-> Norm(m).payloads, srchdr |-> HdrOf(m)]) >>)
 
 Init == H!Init
 Next == H!Next
